@@ -34,7 +34,7 @@ PROPS["C02"] = {
     "runs": [
         {"entry": IOS_ACL, "quick": {"N": "3", "K": "7"}, "thorough": {"N": "3", "K": "12"},
          "covers": ["move emitted (joined delete+add)", "no change reported", "changes emitted", "pure inserts and deletes around common lines"]},
-        {"entry": IOS_ACL, "quick": {"N": "2", "K": "8"}, "thorough": {"N": "4", "K": "6"}},
+        {"entry": IOS_ACL, "quick": {"N": "2", "K": "8", "flags": "name+xe"}, "thorough": {"N": "4", "K": "6"}},
         # long same-action runs: device <=3 lines, target <=5 lines from 4 permit + 2 deny lines (thorough only)
         {"entry": IOS_ACL, "quick": {"N": "2", "NB": "3", "menu": "B"}, "thorough": {"N": "3", "NB": "5", "menu": "B"}},
     ],
@@ -43,10 +43,10 @@ PROPS["C14"] = dict(PROPS["C02"], explanation=_cisco_level + " C14: after every 
 PROPS["C08"] = dict(PROPS["C02"], explanation=_cisco_level + " C08: every reject rule of the device model (unknown ACL, used sequence number, duplicate entry modulo log, missing entry on delete, sub-command outside its mode, exit at top level) is an assertion at each script position.")
 PROPS["C10"] = {
     "explanation": _cisco_level + " C10: the script is cut after a symbolic number k of steps, the model state is converted back into a device configuration, the real GetChanges runs again and its script is executed; end state must filter like the target and a third compare must be silent.",
-    "bounds": {"quick": "IOS ACL: n<=2, 1<=m<=2, menu of 8 incl. remark, every cut position", "thorough": "n,m<=3, menu of 7"},
-    "outside": "as C02; cuts inside the two halves of a joined move line (sent as one command)",
+    "bounds": {"quick": "IOS ACL: n<=2, 1<=m<=2, menu of 8 incl. remark, every cut position including the cut between the two halves of a joined replacement line, device with and without IOS-XE sequence numbers (left-over 10000-step numbering visible to the resumed run)", "thorough": "n,m<=3, menu of 7"},
+    "outside": "as C02; more than one cut",
     "selftest": "ios_acl",
-    "runs": [{"entry": IOS_ACL, "quick": {"N": "2", "K": "8", "cut": "1"}, "thorough": {"N": "3", "K": "7", "cut": "1"}, "covers": ["resumed after cut"]}],
+    "runs": [{"entry": IOS_ACL, "quick": {"N": "2", "K": "8", "cut": "1", "flags": "xe"}, "thorough": {"N": "3", "K": "7", "cut": "1", "flags": "name+xe"}, "covers": ["resumed after cut", "cut between the halves of a replacement", "device shows sequence numbers"]}],
 }
 
 PROPS["C18"] = {
@@ -94,3 +94,51 @@ PROPS["C14"]["runs"] = PROPS["C14"]["runs"] + [
     {"entry": M + "/pkg/linux.VerifRoutes", "quick": {"N": "2"}, "thorough": {"N": "3"}, "classes": ["C14"]},
 ]
 PROPS["C14"]["bounds"] = {"quick": PROPS["C02"]["bounds"]["quick"] + "; Linux routes n,m<=2", "thorough": PROPS["C02"]["bounds"]["thorough"] + "; Linux routes n,m<=3"}
+
+ASA_ACL = M + "/pkg/asa.VerifASAACL"
+NSX = M + "/pkg/nsx.VerifNSX"
+
+PROPS["C01"] = {
+    "explanation": _cisco_level + " C01 (ASA): interface ACL with plain lines and lines referencing network object-groups (solver-chosen members), device groups with generated names, left-over generated group, unmanaged group; the script is executed on an ASA model ('line N' inserts/deletes, joined moves, object-group member edits, transfers with fresh -DRC- names, rebinding of access-group, clear configure); final ACL must filter like the target with groups expanded, second compare silent, 'no change' only for an equivalent device.",
+    "bounds": {"quick": "ASA: 1 interface ACL, device lines n<=2, target lines 1<=m<=2, 6 plain lines + permit/deny lines referencing 1 object-group per side with 1..2 members of 3 hosts, left-over generated group, unmanaged group, 8 packet classes",
+               "thorough": "as quick with 2 object-groups per side (group reuse, identical groups, split groups); n,m<=3 with 1 group"},
+    "outside": "routes, crypto maps, tunnel-groups, group-policies, users, pools, certificate maps (VPN object graph), service/protocol object-groups, several ACLs and interfaces, IPv6, sizes above the bounds, real device behaviour beyond the model's rules",
+    "selftest": "asa_(acl|parse)", "selftest_thorough": "asa_",
+    "runs": [
+        {"entry": ASA_ACL, "quick": {"N": "2", "K": "6", "G": "1"}, "thorough": {"N": "2", "K": "6", "G": "2"},
+         "extra": {"maxpaths": 3000000},
+         "covers": ["move emitted (joined delete+add)", "object-group membership edited", "changes emitted", "no change reported"]},
+        {"entry": ASA_ACL, "quick": {"N": "1", "K": "8", "G": "1"}, "thorough": {"N": "3", "K": "6", "G": "1"}, "extra": {"maxpaths": 3000000}},
+    ],
+}
+PROPS["C04"] = {
+    "explanation": "Bounded symbolic execution (gosx) of the real nsx.diffConfig -> sortGroups, addNewServices, genUniqGroupNames, diffPolicies, genUniqRuleNames, sortRules, (rulesPair).Equal/diffRules (myers.Diff), adaptGroup, findGroupOnDevice, equalizeGroups, writeRule, removeUnusedServices/Groups on NsxConfig structures with solver-chosen rule fields and group address lists; JSON bodies are kept structurally (Blob) by the json stub; the REST calls are executed on a model of the manager; resulting rules must equal the target's with groups compared by address set, no left-over Netspoc service/group, second compare silent.",
+    "bounds": {"quick": "1 policy, n,m<=2 rules per side (action, source literal or group), 1 group id per side with 1..2 of 4 addresses, service changed in place, unused Netspoc group on device, one sequence number",
+               "thorough": "2 group ids per side (renamed/shared/duplicated groups), 2 sequence numbers"},
+    "outside": "several policies, destination groups, services per rule other than one shared reference, sizes above the bounds, HTTP layer (see C09), JSON text level",
+    "selftest": "nsx", "selftest_thorough": "nsx",
+    "runs": [
+        {"entry": NSX, "quick": {"N": "2", "G": "1", "seqs": "1"}, "thorough": {"N": "2", "G": "2", "seqs": "1"}, "extra": {"maxpaths": 5000000},
+         "covers": ["incremental group edit", "changes emitted", "no change reported"]},
+        {"entry": NSX, "quick": {"N": "1", "G": "1", "seqs": "2"}, "thorough": {"N": "2", "G": "1", "seqs": "2"}},
+    ],
+}
+PROPS["C07"] = {
+    "explanation": "Frame assertions inside the ASA and NSX converge harnesses (bounded symbolic execution of the real GetChanges / diffConfig): an object-group whose name lacks the generated-name tag and that no managed object references must survive the script textually unchanged and no emitted command may name it (ASA); no emitted REST call may address an id without the Netspoc prefix (NSX).",
+    "bounds": {"quick": "as C01 quick (ASA, unmanaged object-group present/absent) and C04 quick (NSX URLs)", "thorough": "as C01/C04 thorough"},
+    "outside": "IOS unknown interfaces/VRFs, ASA ACLs of unknown interfaces, aaa-server / ldap attribute-map / interface definitions, unmanaged objects referenced from managed ones, PAN-OS vsys scoping, NSX LoadDevice filter (getRawJSON)",
+    "selftest": "asa_parse", 
+    "runs": [
+        {"entry": ASA_ACL, "quick": {"N": "2", "K": "6", "G": "1"}, "thorough": {"N": "2", "K": "6", "G": "2"}, "extra": {"maxpaths": 3000000}},
+        {"entry": NSX, "quick": {"N": "2", "G": "1", "seqs": "1"}, "thorough": {"N": "2", "G": "2", "seqs": "1"}, "extra": {"maxpaths": 5000000}},
+    ],
+}
+for _p in ("C08", "C14"):
+    PROPS[_p]["runs"] = PROPS[_p]["runs"] + [
+        {"entry": ASA_ACL, "quick": {"N": "2", "K": "6", "G": "1"}, "thorough": {"N": "2", "K": "6", "G": "2"}, "extra": {"maxpaths": 3000000}}]
+PROPS["C08"]["runs"] = PROPS["C08"]["runs"] + [
+    {"entry": NSX, "quick": {"N": "2", "G": "1", "seqs": "1"}, "thorough": {"N": "2", "G": "2", "seqs": "1"}, "extra": {"maxpaths": 5000000}}]
+PROPS["C10"]["runs"] = PROPS["C10"]["runs"] + [
+    {"entry": ASA_ACL, "quick": {"N": "2", "K": "4", "G": "1", "cut": "1"}, "thorough": {"N": "2", "K": "6", "G": "1", "cut": "1"}, "extra": {"maxpaths": 3000000}, "covers": ["resumed after cut"]},
+    {"entry": NSX, "quick": {"N": "1", "G": "1", "seqs": "1", "cut": "1"}, "thorough": {"N": "2", "G": "1", "seqs": "1", "cut": "1"}, "extra": {"maxpaths": 5000000}, "covers": ["resumed after cut"]},
+]
